@@ -92,6 +92,23 @@ def run(ctx):
             c = W.make_case(rng, family=(n, e, fam), workers=0)
             c.update(latUs=[0] * n, unsel=[])
             cases.append(c)
+    # sizes just past powers of two (batching / chunking / buffer thresholds in set-up code), zero latency: a dependency completes while
+    # Walk is still setting up the rest; keep-going with and without a failing root (lost ready / lost cancel), fail-fast
+    for k in (511, 512, 513, 1023, 1024, 1025, 2047, 2048, 2049, 4097):
+        for fam_f in (W.g_fanout, W.g_fanin):
+            n, e, fam = fam_f(k)
+            c = W.make_case(rng, family=(n, e, fam), workers=0, fail_fast=False)
+            c.update(latUs=[0] * n, unsel=[], fail=[], **{"yield": False})
+            cases.append(c)
+        n, e, fam = W.g_fanout(k)
+        c = W.make_case(rng, family=(n, e, fam), workers=0, fail_fast=(k % 2 == 0))
+        c.update(latUs=[0] * n, unsel=[], fail=[0], **{"yield": False})
+        cases.append(c)
+    for a, b in ((3, 700), (8, 1300), (2, 2600)):
+        n, e, fam = W.g_bipartite(a, b)
+        c = W.make_case(rng, family=(n, e, fam), workers=0, fail_fast=False)
+        c.update(latUs=[0] * n, unsel=[], fail=[], **{"yield": False})
+        cases.append(c)
     cases.append(dict(W.make_case(rng, family=(1, [], "single"), workers=0, fail_fast=False), fail=[], unsel=[]))
     cases.append(dict(W.make_case(rng, family=(1, [], "single"), workers=0, fail_fast=True), fail=[0], unsel=[]))
     cases.append(dict(W.make_case(rng, family=(3, [[0, 1], [1, 2]], "nothing-selected"), workers=0, fail_fast=False), fail=[], unsel=[0, 1, 2]))
@@ -100,7 +117,7 @@ def run(ctx):
     nrand = 300 if quick else 12000
     for i in range(nrand):
         cases.append(W.make_case(rng, maxn=400 if i % 6 == 0 else 50, workers=0, cancel=(i % 5 == 0)))
-    ctx.coverage["rule"] = (f"{len(cases)} cases: zero-latency fan-out/bipartite up to {max(big)+1} nodes, all failing subsets x fail-fast on two 4-node graphs, "
+    ctx.coverage["rule"] = (f"{len(cases)} cases: zero-latency fan-out/fan-in/bipartite up to 4097 nodes (sizes around 64..4096), all failing subsets x fail-fast on two 4-node graphs, "
                             f"{nrand} random DAGs (20% with cancellation); each in a synctest bubble, a third again under -race; plus directory restores with "
                             "every missing-blob pattern; non-trivial = distinct (family,n,failFast,#fail,cancel)")
     viol_before = len(ctx.violations)
@@ -114,6 +131,15 @@ def run(ctx):
     # ---- trace inclusion + completion oracle on what the harness recorded ------------------------
     done = [(c, W.intest_as_out(res[i])) for i, c in enumerate(cases) if i in res and res[i].get("returned")]
     n_events, disagreements, oracle_fail = 0, [], 0
+    # the model-independent oracle runs on every trace; the replay through the Lean model (linear in n per event) on those up to 1100 nodes
+    for c, o in done:
+        if c["n"] > 1100:
+            n_events += len(o["trace"])
+            for prop, sig, msg in W.oracle(c, o):
+                if prop == "C04":
+                    oracle_fail += 1
+                    ctx.violation(msg, {"kind": "oracle", "case": strip(c), "impl": {k: v for k, v in o.items() if k != "trace"}}, signature=sig)
+    done = [(c, o) for c, o in done if c["n"] <= 1100]
     if done:
         reps = W.replay_model(ctx, [c for c, _ in done], [o for _, o in done])
         for (c, o), r in zip(done, reps):
@@ -307,11 +333,12 @@ def run_cli(ctx):
         k += 1
     results = []
     with cf.ThreadPoolExecutor(max_workers=4) as ex:
-        for f in [ex.submit(fn, ctx, *args) for fn, args in jobs]:
+        for f in [ex.submit(W.confirmed, fn, ctx, *args) for fn, args in jobs]:
             results.append(f.result())
     for r in results:
         for sig, msg in r["bad"]:
             ctx.violation(msg, {"kind": "oracle", "oracle": "CLI build returns, resolves every target, does not crash", "scenario": r}, signature=sig)
+    ctx.coverage["cli_unconfirmed_oracle_failures"] = [(r["scenario"], r["unconfirmed"], r.get("unconfirmed_record")) for r in results if r.get("unconfirmed")]
     ctx.coverage["cli_scenarios"] = {s: sum(1 for r in results if r["scenario"] == s) for s in ("target-timeout", "lost-blob", "alias-fanout")}
     ctx.coverage["cli_max_wall_s"] = max([r.get("wall", 0) for r in results] + [r.get("wall2", 0) for r in results])
     ctx.coverage["evaluations"] += len(results)
